@@ -1,6 +1,7 @@
 package props
 
 import (
+	"encoding/json"
 	"fmt"
 	"math/rand"
 	"strings"
@@ -19,7 +20,7 @@ type c07 struct{ base }
 
 func init() {
 	runner.Register(&c07{base{id: "C07", level: "exploration",
-		rule: "exhaustive single actions: every action kind x target shape {absent top-level, top-level scalar, map member, nested map member, list element inside / at / past the end, element of a nested list, set} x right-hand-side shape {value, path, +, -, if_not_exists(present / absent), list_append both orders}; seeded: 1-4 clauses per expression incl. all four keywords together in random clause order, on items with 3-8 bystander attributes of all ten types, on present and absent items. Each case is executed (1) directly through interpreter.Language.Update on a copy and (2) for a sample through UpdateItem -> GetItem on both adapters; the result is compared with the oracle on EVERY attribute (targeted = specified value, removed = gone, all others equal in type and value). non-trivial = item has >=3 bystander attributes and the update changes the item; distinct by (update skeleton, target/operand kind vector).",
+		rule: "exhaustive single actions: every action kind x target shape {absent top-level, top-level scalar, map member, nested map member, list element inside / at / past the end, element of a nested list, set} x right-hand-side shape {value, path, +, -, if_not_exists(present / absent), list_append both orders}; every pairing of a copy (plain path, list_append(src, :e) with empty and non-empty :e, list_append(:e, src), if_not_exists(src, :d)) with an in-place change of the source or of a document INSIDE an element of the source, in every clause order; seeded: 1-4 clauses per expression incl. all four keywords together in random clause order, on items with 3-8 bystander attributes of all ten types, on present and absent items. Each case is executed (1) directly through interpreter.Language.Update on a copy and (2) for a sample through UpdateItem -> GetItem on both adapters; the result is compared with the oracle on EVERY attribute (targeted = specified value, removed = gone, all others equal in type and value). non-trivial = item has >=3 bystander attributes and the update changes the item; distinct by (update skeleton, target/operand kind vector).",
 		assumptions: append([]string{"paths of one expression never overlap (generator guarantee; DynamoDB rejects overlaps)", "numbers are small decimals that float64 represents exactly (exact-decimal behaviour is C12's subject)"}, commonAssumptions...)}})
 }
 
@@ -223,6 +224,39 @@ func c07Exhaustive() []c07Case {
 		out = append(out, c07Case{U: &refmodel.Update{Actions: []refmodel.Action{{Kind: g.kind, Path: g.path, RHS: uv(":v")}}}, Item: nil, Values: val.Item{":v": g.v}})
 	}
 	out = append(out, c07Case{U: &refmodel.Update{Actions: []refmodel.Action{{Kind: "REMOVE", Path: pth("s")}}}, Item: nil, Values: val.Item{}})
+	// #name placeholders for attribute names that are no identifiers: the action addresses the attribute with
+	// exactly that name (top level and as a member of map m), never a path reading of it
+	for _, hn := range c06HostileNames {
+		if strings.HasPrefix(hn, ":") {
+			continue // attribute names that look like value placeholders: listed finding of C06 (one namespace)
+		}
+		top := refmodel.Path{{Name: hn, Alias: "#h"}}
+		nested := refmodel.Path{{Name: "m"}, {Name: hn, Alias: "#h"}}
+		for _, withLiteral := range []bool{true, false} {
+			mk := func() val.Item {
+				it := c07BaseItem(r, 2)
+				for k, v := range c06Decoy(hn, val.Num("1")) {
+					if _, clash := it[k]; !clash {
+						it[k] = v
+					}
+				}
+				if withLiteral {
+					it[hn] = val.Num("10")
+					mm := it["m"].Clone()
+					mm.M[hn] = val.Num("10")
+					it["m"] = mm
+				}
+				return it
+			}
+			for _, pt := range []refmodel.Path{top, nested} {
+				out = append(out, c07Case{U: &refmodel.Update{Actions: []refmodel.Action{{Kind: "SET", Path: pt, RHS: uv(":v")}}}, Item: mk(), Values: val.Item{":v": val.Str("new")}})
+				out = append(out, c07Case{U: &refmodel.Update{Actions: []refmodel.Action{{Kind: "REMOVE", Path: pt}}}, Item: mk(), Values: val.Item{}})
+				out = append(out, c07Case{U: &refmodel.Update{Actions: []refmodel.Action{{Kind: "SET", Path: pth("cpy"), RHS: up(pt)}}}, Item: mk(), Values: val.Item{}})
+				out = append(out, c07Case{U: &refmodel.Update{Actions: []refmodel.Action{{Kind: "SET", Path: pt, RHS: &refmodel.UExpr{Kind: "plus", Kids: []*refmodel.UExpr{{Kind: "ifne", Path: pt, Kids: []*refmodel.UExpr{uv(":d")}}, uv(":i")}}}}}, Item: mk(), Values: val.Item{":d": val.Num("0"), ":i": val.Num("1")}})
+			}
+			out = append(out, c07Case{U: &refmodel.Update{Actions: []refmodel.Action{{Kind: "ADD", Path: top, RHS: uv(":v")}}}, Item: mk(), Values: val.Item{":v": val.Num("5")}})
+		}
+	}
 	// a SET that copies an attribute together with an action that modifies the source in place,
 	// in every clause order: the copy must hold the pre-update value
 	type mut struct {
@@ -244,17 +278,58 @@ func c07Exhaustive() []c07Case {
 		{pth("m"), refmodel.Action{Kind: "REMOVE", Path: pth("m", "k", "y")}, val.Item{}},
 		{pth("m", "k"), refmodel.Action{Kind: "SET", Path: pth("m", "k", "y"), RHS: uv(":m")}, val.Item{":m": val.Num("77")}},
 		{pth("l", 2), refmodel.Action{Kind: "SET", Path: pth("l", 2, 0), RHS: uv(":m")}, val.Item{":m": val.Num("77")}},
+		// in-place changes INSIDE an element of the copied list (the element is a document, not a scalar)
+		{pth("l"), refmodel.Action{Kind: "SET", Path: pth("l", 3, "q"), RHS: uv(":m")}, val.Item{":m": val.Str("changed")}},
+		{pth("l"), refmodel.Action{Kind: "REMOVE", Path: pth("l", 3, "q")}, val.Item{}},
+		{pth("l"), refmodel.Action{Kind: "SET", Path: pth("l", 2, 1), RHS: uv(":m")}, val.Item{":m": val.Num("77")}},
+		{pth("l"), refmodel.Action{Kind: "REMOVE", Path: pth("l", 2, 0)}, val.Item{}},
+		{pth("l"), refmodel.Action{Kind: "REMOVE", Path: pth("l", 0)}, val.Item{}},
+		{pth("m", "li"), refmodel.Action{Kind: "SET", Path: pth("m", "li", 0), RHS: uv(":m")}, val.Item{":m": val.Str("changed")}},
+	}
+	// the copy is made by a plain path, or by a function that returns (parts of) the source:
+	// list_append(src, :e) / list_append(:e, src) with an empty and a non-empty :e, if_not_exists(src, :d)
+	type cpForm struct {
+		name     string
+		listOnly bool
+		mk       func(src refmodel.Path) (*refmodel.UExpr, val.Item)
+	}
+	forms := []cpForm{
+		{"path", false, func(src refmodel.Path) (*refmodel.UExpr, val.Item) { return up(src), val.Item{} }},
+		{"append-src-empty", true, func(src refmodel.Path) (*refmodel.UExpr, val.Item) {
+			return &refmodel.UExpr{Kind: "append", Kids: []*refmodel.UExpr{up(src), uv(":e")}}, val.Item{":e": val.List()}
+		}},
+		{"append-src-more", true, func(src refmodel.Path) (*refmodel.UExpr, val.Item) {
+			return &refmodel.UExpr{Kind: "append", Kids: []*refmodel.UExpr{up(src), uv(":e")}}, val.Item{":e": val.List(val.Str("more"))}
+		}},
+		{"append-more-src", true, func(src refmodel.Path) (*refmodel.UExpr, val.Item) {
+			return &refmodel.UExpr{Kind: "append", Kids: []*refmodel.UExpr{uv(":e"), up(src)}}, val.Item{":e": val.List(val.Map(map[string]val.V{"q": val.Str("first")}))}
+		}},
+		{"ifne-src", false, func(src refmodel.Path) (*refmodel.UExpr, val.Item) {
+			return &refmodel.UExpr{Kind: "ifne", Path: src, Kids: []*refmodel.UExpr{uv(":e")}}, val.Item{":e": val.Str("default")}
+		}},
 	}
 	orders := [][]string{{"SET", "REMOVE", "ADD", "DELETE"}, {"DELETE", "ADD", "REMOVE", "SET"}, {"ADD", "SET", "DELETE", "REMOVE"}}
 	for _, mu := range muts {
-		for _, ord := range orders {
-			for _, copyFirst := range []bool{true, false} {
-				cp := refmodel.Action{Kind: "SET", Path: pth("cpy"), RHS: up(mu.src)}
-				acts := []refmodel.Action{cp, mu.act}
-				if !copyFirst {
-					acts = []refmodel.Action{mu.act, cp}
+		base := c07BaseItem(r, 0)
+		sv, _ := mu.src.Resolve(base)
+		for _, f := range forms {
+			if f.listOnly && sv.K != val.KL {
+				continue
+			}
+			for _, ord := range orders {
+				for _, copyFirst := range []bool{true, false} {
+					rhs, fv := f.mk(mu.src)
+					vals := mu.vals.Clone()
+					for k, v := range fv {
+						vals[k] = v
+					}
+					cp := refmodel.Action{Kind: "SET", Path: pth("cpy"), RHS: rhs}
+					acts := []refmodel.Action{cp, mu.act}
+					if !copyFirst {
+						acts = []refmodel.Action{mu.act, cp}
+					}
+					out = append(out, c07Case{U: &refmodel.Update{Actions: acts, ClauseOrder: ord}, Item: c07BaseItem(r, 3), Values: vals})
 				}
-				out = append(out, c07Case{U: &refmodel.Update{Actions: acts, ClauseOrder: ord}, Item: c07BaseItem(r, 3), Values: mu.vals})
 			}
 		}
 	}
@@ -432,6 +507,10 @@ func (p *c07) evalCase(x *res, cs c07Case, rr refmodel.RenderOpts, viaClient boo
 			x.viol("rejected-update-changed-item", feature, fmt.Sprintf("Update(%q) was rejected (%s) but changed the item: %s", expr, msg, diffAttrs(after, base)), wit)
 		}
 		return
+	case (got == "reject" || !val.ItemsEqual(after, want.Item)) && c07AliasQuirk(cs, base, got, after):
+		// listed finding of C06 (dotted #name target re-read as a path when the literal attribute is absent)
+		x.viol("wrong-result~dotted-alias-as-path", "alias", fmt.Sprintf("Update(%q) with names %v on %s: got %s %s; oracle result %s", expr, names, base.Canon(), got, msg, want.Item.Canon()), wit)
+		return
 	case got == "reject":
 		x.viol("reject-valid", feature, fmt.Sprintf("Update(%q) on %s rejected: %s; oracle result %s", expr, base.Canon(), msg, want.Item.Canon()), wit)
 		return
@@ -443,6 +522,107 @@ func (p *c07) evalCase(x *res, cs c07Case, rr refmodel.RenderOpts, viaClient boo
 	if viaClient {
 		p.viaClient(x, cs, expr, names, want, feature, ctx)
 	}
+}
+
+// c07AliasQuirk reports whether the library's result is what the oracle computes under the library's reading
+// of dotted #name targets (see c06AliasQuirk): the literal attribute is absent and the path reading resolves.
+func c07AliasQuirk(cs c07Case, base val.Item, got string, after val.Item) bool {
+	alt := base.Clone()
+	type inj struct{ parent, name string }
+	injected := []inj{}
+	for _, pt := range cs.U.Paths() {
+		if pt[0].Alias != "" && strings.Contains(pt[0].Name, ".") {
+			n := pt[0].Name
+			if _, have := base[n]; !have {
+				if v, ok := refmodel.P(strings.Split(n, ".")...).Resolve(base); ok {
+					alt[n] = v
+					injected = append(injected, inj{"", n})
+				}
+			}
+		}
+		if len(pt) == 2 && pt[1].Alias != "" && strings.Contains(pt[1].Name, ".") {
+			n := pt[1].Name
+			if parent, ok := base[pt[0].Name]; ok && parent.K == val.KM {
+				if _, have := parent.M[n]; !have {
+					if v, ok := refmodel.P(append([]string{pt[0].Name}, strings.Split(n, ".")...)...).Resolve(base); ok {
+						np := alt[pt[0].Name].Clone()
+						np.M[n] = v
+						alt[pt[0].Name] = np
+						injected = append(injected, inj{pt[0].Name, n})
+					}
+				}
+			}
+		}
+	}
+	if len(injected) == 0 {
+		return false
+	}
+	// second form of the same reading: the action itself goes through the path (ADD on #h -> "a.b" changes a.b)
+	var u2 refmodel.Update
+	if b, err := json.Marshal(cs.U); err == nil && json.Unmarshal(b, &u2) == nil {
+		split := func(pt refmodel.Path) refmodel.Path {
+			out := refmodel.Path{}
+			for i, el := range pt {
+				isInjected := false
+				for _, in := range injected {
+					if el.Alias != "" && el.Name == in.name && ((in.parent == "" && i == 0) || (in.parent != "" && i == 1)) {
+						isInjected = true
+					}
+				}
+				if isInjected {
+					out = append(out, refmodel.P(strings.Split(el.Name, ".")...)...)
+				} else {
+					out = append(out, el)
+				}
+			}
+			return out
+		}
+		var walk func(e *refmodel.UExpr)
+		walk = func(e *refmodel.UExpr) {
+			if e == nil {
+				return
+			}
+			if len(e.Path) > 0 {
+				e.Path = split(e.Path)
+			}
+			for _, k := range e.Kids {
+				walk(k)
+			}
+		}
+		for i := range u2.Actions {
+			u2.Actions[i].Path = split(u2.Actions[i].Path)
+			walk(u2.Actions[i].RHS)
+		}
+		w2 := u2.Apply(base, cs.Values)
+		if w2.Unsure || (got == "reject" && w2.Reject) || (got != "reject" && !w2.Reject && val.ItemsEqual(after, w2.Item)) {
+			return true
+		}
+	}
+	w := cs.U.Apply(alt, cs.Values)
+	if w.Unsure {
+		return true
+	}
+	if got == "reject" {
+		return w.Reject
+	}
+	if w.Reject {
+		return false
+	}
+	if val.ItemsEqual(after, w.Item) {
+		return true
+	}
+	// the literal attribute exists in the library only if an action wrote it
+	stripped := w.Item.Clone()
+	for _, in := range injected {
+		if in.parent == "" {
+			delete(stripped, in.name)
+		} else if pm, ok := stripped[in.parent]; ok && pm.K == val.KM {
+			np := pm.Clone()
+			delete(np.M, in.name)
+			stripped[in.parent] = np
+		}
+	}
+	return val.ItemsEqual(after, stripped)
 }
 
 func (p *c07) viaClient(x *res, cs c07Case, expr string, names map[string]string, want refmodel.UResult, feature string, ctx *runner.Ctx) {
